@@ -41,7 +41,8 @@ def run_seq(ctx, binp, q, keyfn, want_prefix):
                 ctx.notes.append("sequence %d failed for another property: %s" % (r["seq"], k))
         else:
             ctx.traces_ok += 1
-    ctx.sample({"sequence": recs[len(recs) // 2], "observed": out[len(out) // 2].get("trace")})
+    if out:
+        ctx.sample({"sequence": recs[len(recs) // 2], "observed": out[len(out) // 2].get("trace")})
 
 
 def run(ctx):
